@@ -155,6 +155,7 @@ Proof.
     rewrite decide_conns in H. apply Keep. exact H.
   - unfold nthc in H. cbn [s_conns] in H. rewrite decide_conns in H. apply Keep. exact H.
   - destruct (s_decided s); apply Keep; exact H.
+  - destruct (s_decided s); apply Keep; exact H.
 Qed.
 
 Lemma absorb_decided cf s es : s_decided (absorb cf s es) = s_decided s.
@@ -211,6 +212,7 @@ Proof.
     + destruct (s_timer s); [cbn; rewrite decide_decided, D; reflexivity|exact D].
     + cbn. rewrite decide_decided, D. reflexivity.
     + rewrite D. exact D.
+    + rewrite D. exact D.
   - destruct o; cbn [op_effect s_decided]; try (left; exact D).
     + destruct (s_tried s); left; exact D.
     + destruct (s_npend s); left; exact D.
@@ -222,6 +224,7 @@ Proof.
       right. right. split; [rewrite decide_ok_decided, D; reflexivity|]. apply N.eqb_eq in P. subst. eauto.
     + destruct (s_timer s); [|left; exact D]. right. left. split; [cbn; rewrite decide_decided, D; reflexivity|auto].
     + right. left. split; [cbn; rewrite decide_decided, D; reflexivity|eauto].
+    + rewrite D. left. reflexivity.
     + rewrite D. left. reflexivity.
 Qed.
 
@@ -238,6 +241,7 @@ Proof.
     unfold decide_ok in *. destruct (s_decided s); [left; exact H|right; reflexivity].
   - destruct (s_timer s); [|left; exact H]. cbn in H. unfold decide in H. destruct (s_decided s); left; exact H.
   - cbn in H. unfold decide in H. destruct (s_decided s); left; exact H.
+  - destruct (s_decided s); left; exact H.
   - destruct (s_decided s); left; exact H.
 Qed.
 
@@ -277,6 +281,9 @@ Proof.
     apply andb_true_iff in H as [_ H]. destruct (s_decided s) as [b|]; [|exfalso; exact (NF H)].
     apply fires_In in Hw. destruct (fires es) as [|[w' r] [|? ?]]; try discriminate H.
     destruct Hw as [E|[]]. injection E as -> ->. apply andb_true_iff in H as [_ H]. cbn in H. subst b. left. reflexivity.
+  - (* OWhenR *)
+    apply andb_true_iff in H as [_ H]. destruct (s_decided s) as [b|]; [|exfalso; exact (NF H)].
+    pose proof (all_fire_res _ b es H w ROk Hw) as X. cbn in X. subst b. left. reflexivity.
 Qed.
 
 Lemma full_bootstrap_flags s k : full_bootstrap s k = true ->
